@@ -369,3 +369,8 @@ def r_command_index(ctx):
 
 
 RULES = [r_reader_ids, r_command_index, r1_send_payload, r2_store_payload, r3_r5_recv_loop, r5b_ack_recorded, r6_key_function, r7_thread_confinement, r4_r5_listener, r6_frames]
+
+from .common import lazy  # noqa: E402
+RULES += [lazy("C06", "r3_retry_and_ack", "the listener's memory of acknowledged Syns must not shrink: a retried transfer would be stored / announced twice"),
+          lazy("C04", "r1_purge_guard", "a requested output is not purged while its fetch is outstanding"),
+          lazy("C02", "r9_executor_routing", "a purge reaches the data server (which waits for running transfers and invalidates pending ones), never the shm store directly")]
